@@ -17,8 +17,8 @@ RULE = ('logit matrices T(3-40) x C(3-12): dense at several temperatures, sparse
 ASSUMPTIONS = ['shift invariance is judged on matrices whose entries are all stored (sparse-with-floor replaces pruned entries by a fixed floor, so a shift of the stored ones is not a shift of "all logits of the frame")',
                'no stored logit is exactly 0.0', 'tolerance 1e-9 (float64)']
 N = {'quick': 3000, 'thorough': 100000}
-CLASSES = ['dense', 'dense_peaky', 'sparse_floor', 'onehot', 'transformer', 'bag', 'bag_lm', 'bag_extreme', 'threshold', 'alto_wc', 'tiny_logits', 'alto_word_onehot', 'parser_update']
-REQUIRED = ['word_onehot_lines', 'parser_updates', 'tiny_logit_lines', 'repeated_calls_checked', 'bag_history_steps', 'repo_tests_under_contracts', 'line_conf_checked', 'shift_checked', 'onehot_checked', 'letter_conf_checked', 'page_conf_checked', 'bag_checked', 'monotone_checked', 'wc_checked',
+CLASSES = ['dense', 'dense_peaky', 'sparse_floor', 'onehot', 'transformer', 'bag', 'bag_lm', 'bag_extreme', 'threshold', 'alto_wc', 'tiny_logits', 'alto_word_onehot', 'parser_update', 'long_line']
+REQUIRED = ['lines_over_1000_frames', 'word_onehot_lines', 'parser_updates', 'tiny_logit_lines', 'repeated_calls_checked', 'bag_history_steps', 'repo_tests_under_contracts', 'line_conf_checked', 'shift_checked', 'onehot_checked', 'letter_conf_checked', 'page_conf_checked', 'bag_checked', 'monotone_checked', 'wc_checked',
             'contract:get_line_confidence in [0,1], one per label', 'contract:posteriors <= 0 and sum to 1', 'contract:compute_line_confidence in [0,1]']
 TOL = 1e-9
 
@@ -47,13 +47,15 @@ def gen(rng, i, ctx):
         return {'cls': cls, 'seed': int(rng.integers(0, 1 << 30)), 'n': int(rng.integers(1, 5))}
     C = int(rng.integers(3, 13))
     L = int(rng.integers(1, 9))
+    if cls == 'long_line':
+        L = int(rng.integers(420, 520))          # more than 1000 frames
     labels = [int(x) for x in rng.integers(0, C - 1, size=L)]
     path = genlib.path_for_labels(rng, labels, C - 1)
     if cls == 'transformer':
         lg = rng.normal(size=(L, C)) * float(rng.choice([1, 5]))
         lg[lg == 0] = 0.1
         return {'cls': cls, 'logits': lg, 'labels': labels}
-    mode = {'dense': 'noisy', 'dense_peaky': 'peaky', 'sparse_floor': 'noisy', 'onehot': 'onehot', 'threshold': 'noisy', 'alto_wc': str(rng.choice(['peaky', 'noisy', 'onehot'])), 'tiny_logits': 'onehot'}[cls]
+    mode = {'dense': 'noisy', 'dense_peaky': 'peaky', 'sparse_floor': 'noisy', 'onehot': 'onehot', 'threshold': 'noisy', 'alto_wc': str(rng.choice(['peaky', 'noisy', 'onehot'])), 'tiny_logits': 'onehot', 'long_line': str(rng.choice(['peaky', 'noisy', 'onehot']))}[cls]
     lg = genlib.logits_for_path(rng, path, C, mode=mode)
     if cls == 'tiny_logits':
         # stored log-posteriors of a near one-hot output: the winner's logit is a genuine stored value of magnitude 1e-9 .. 1e-12 (not a pruned 0.0)
@@ -163,10 +165,14 @@ def check(case, mon, ctx):
     if cls == 'tiny_logits':
         mon.count('tiny_logit_lines')
     line = ctx.layout.TextLine(logits=stored)
+    if lg.shape[0] > 1000:
+        mon.count('lines_over_1000_frames')
     try:
         c = ctx.ce.get_line_confidence(line, np.array(labels))
-    except ValueError:
-        c = None     # labels not alignable to this matrix: no confidence is reported
+    except ValueError as e:
+        c = None
+        # the matrix has one frame per element of a path that collapses to the labels, so the transcription is alignable and a confidence is due
+        mon.violation('alignable-line-gets-a-confidence', {'frames': int(lg.shape[0]), 'labels': len(labels), 'exception': repr(e)[:200]})
     if c is not None:
         mon.count('line_conf_checked')
         if not in_unit(c):
